@@ -71,7 +71,7 @@ func (p *process) Invoke(msgs []Envelope) {
 		// so we can retry them on the next restart.
 		if v := recover(); v != nil {
 			p.context.message = Stopped{}
-			p.context.receiver.Receive(p.context)
+			applyMiddleware(p.context.receiver.Receive, p.Opts.Middleware...)(p.context)
 
 			p.mbuffer = make([]Envelope, nmsg-nproc)
 			for i := 0; i < nmsg-nproc; i++ {
@@ -122,7 +122,7 @@ func (p *process) Start() {
 	defer func() {
 		if v := recover(); v != nil {
 			p.context.message = Stopped{}
-			p.context.receiver.Receive(p.context)
+			applyMiddleware(p.context.receiver.Receive, p.Opts.Middleware...)(p.context)
 			p.tryRestart(v)
 		}
 	}()
